@@ -48,12 +48,14 @@ CHECKS['C06'] = (
     'DESIGN.md §6 C06')
 CHECKS['C13'] = (
     'Lean 4 theorems: aranges entries exact and sorted; bisect-based lookup = "the range containing the address" under the no-shadow hypothesis (with a '
-    'proved counterexample showing the hypothesis is needed); name tables exact; refinement: every get_CU_containing/get_CU_at answer equals the stateless '
-    'answer in every cache state satisfying an invariant every lookup preserves; correspondence incl. exhaustive offsets of multi-unit sections',
+    'proved counterexample showing the hypothesis is needed); name tables: exact ordered-dict content (keys by first occurrence, value of the last occurrence) for any '
+    'number of sets with duplicates; unit chain / get_CU_containing / get_CU_at / get_DIE_from_lut_entry over sections of DWARF 2-5 units (all six v5 unit types, both '
+    'formats, mixed) in every cache state satisfying an invariant every lookup preserves; address -> unit composition incl. absent / empty tables; correspondence incl. '
+    'exhaustive offsets of multi-unit sections',
     'Proof: lookup tables resolve to the unit whose encoded range/extent contains the query, for all queries and all cache states; bisect_right is modelled '
-    'as CPython\'s loop and proved equal to the count of keys <= x on sorted lists.',
-    'Unit-header instantiation proved for DWARF versions 2-4 (…_encoded_partial; v5 headers by correspondence here, proved in C04\'s unit_chain); first-occurrence key order for duplicate names not proved; '
-    'DIE decoding behind get_DIE_from_lut_entry is C04\'s subject (observed through offset and unit only). Zero-length / shadowed tuples are the claim\'s boundary.',
+    'as CPython\'s loop and proved equal to the count of keys <= x on sorted lists; the v5 unit headers reuse C04\'s header theorems.',
+    'Correspondence-only: malformed / truncated tables and error classes, shadowed range tables (the claim\'s boundary), ill-formed UTF-8 names, 64-bit-format aranges/name tables '
+    '(outside the quantifier), histories calling get_CU_at at an offset where no unit starts (poisons the cache by design, see C10). DIE decoding behind get_DIE_from_lut_entry is C04\'s subject.',
     'DESIGN.md §6 C13')
 CHECKS['C14'] = (
     'Lean 4 theorems: note-walk round trip for any number of notes, any name/descriptor size residue, all seven descriptor grammars, both classes/orders, '
